@@ -148,6 +148,8 @@ type Exec struct {
 	depthBase  int
 	alog       *accessLog
 	syncMaps   map[*value]map[syncMapKey][2]value
+	fileInfo   value
+	par        *parState
 	fileReader value
 	fileClosed int
 	races      []string
